@@ -167,6 +167,8 @@ static void client(void* arg)
   if(mode == 5) { if(c == 1) overload_sweep(); return; }
   if(mode == 6) { client_res(c); return; }
   Future<int>* fut[MAXF];
+  // failcreate=1: the pool's first attempt to create a worker thread fails (EAGAIN); the calls started later must still find a worker
+  if(c == 1 && sched_param_int("failcreate", 0)) sched_fail_next_create();
   for(int i = 0; i < nfuts; ++i)
   {
     int id = c * 8 + i;
